@@ -530,7 +530,7 @@ func runC19(r *Runner, g *Gen, tier string) string {
 		}
 		r.Do(L(items...), k > 2, "internseq")
 	}
-	internLargeOps(r, scale(tier, 6, 200))
+	internLargeOps(r, scale(tier, 6, 48))
 	// thousands of distinct values through one field (beyond any table size limit one might pick)
 	for _, n := range []int{63, 64, 65, 255, 256, 257, 1023, 1025, scale(tier, 20000, 70000)} {
 		r.Do(L(A("internmany"), A(fmt.Sprint(n))), true, "internmany")
